@@ -95,9 +95,13 @@ IndValue(p, S, h, lv0, ind) ==
 
 IndValues(p, S, h, lv0) == [i \in Inds(p) |-> IndValue(p, S, h, lv0, p.inds[i])]
 
+RECURSIVE UnspecIndOne(_, _, _)
+
+\* (weakest reading: a target / bound on an indicator that is in an open corner for S is not judged)
 IndConHolds(p, S, h, lv0, c) ==
   LET r == IndValue(p, S, h, lv0, p.inds[c.ind]) IN
-  CASE c.cls = "IndicatorTarget" -> r[1] <= c.value /\ c.value <= r[2]
+  CASE UnspecIndOne(p, S, p.inds[c.ind]) # {} -> TRUE
+    [] c.cls = "IndicatorTarget" -> r[1] <= c.value /\ c.value <= r[2]
     [] c.cls = "IndicatorBounds" -> /\ Has(c.lower) => r[2] >= Val(c.lower)
                                     /\ Has(c.upper) => r[1] <= Val(c.upper)
     [] OTHER -> TRUE
@@ -113,6 +117,11 @@ UnspecIndOne(p, S, ind) ==
   (IF ind.cls \in {"IndicatorMaximumLateness", "MinimumStartTime", "GreatestStartTime"}
       /\ \E t \in SeqToSet(ind.tasks) : ~S.sched[t]
    THEN {"extremum-indicator-with-unscheduled-task"} ELSE {})
+  \cup
+  \* docs/indicator.md: "Unweighted total tardiness"; the class docstring: "The weighted sum of total tardiness"
+  (IF ind.cls = "IndicatorTardiness"
+      /\ \E t \in SchedOf(S, SeqToSet(ind.tasks)) : p.tasks[t].priority # 1 /\ S.e[t] > Val(p.tasks[t].due)
+   THEN {"tardiness-weighted-by-priority-or-not"} ELSE {})
   \cup
   (IF ind.cls = "IndicatorFromMathExpression" /\ Touches(p, S, ind.expr)
    THEN {"expression-over-unscheduled-task"} ELSE {})
